@@ -144,8 +144,10 @@ def compare_decoded(d, c, spec, who):
         if d['dims'].get(dk) != n:
             problems.append('%s: decoded dimension %s = %s, written %d'
                             % (who, dk, d['dims'].get(dk), n))
-    if list(d['vars']) != list(c['vars']) and set(d['vars']) != set(
-            c['vars']):
+    if list(d['vars']) != list(c['vars']) and (
+            spec['fmt'] == 'landuse' or set(d['vars']) != set(c['vars'])):
+        # record order is part of the land-use layout (the categories
+        # record comes first)
         problems.append('%s: decoded variables %s, written %s'
                         % (who, list(d['vars']), list(c['vars'])))
     for k, arr in c['vars'].items():
@@ -167,6 +169,11 @@ def compare_decoded(d, c, spec, who):
         problems.append('%s: decoded end times %s, written %s'
                         % (who, (d.get('etflag') or [])[:4],
                            c['etflag'][:4]))
+    if spec['fmt'] == 'wind' and c['header'].get('LSTAGGER') is not None:
+        if d['header'].get('LSTAGGER') != c['header']['LSTAGGER']:
+            problems.append('%s: decoded stagger flag %r, written %r'
+                            % (who, d['header'].get('LSTAGGER'),
+                               c['header']['LSTAGGER']))
     if spec['fmt'] in ('uamiv', 'lateral_boundary'):
         for key in ('name', 'itzon', 'plon', 'plat', 'xorg', 'yorg', 'delx',
                     'dely', 'iproj', 'istag', 'tlat1', 'tlat2', 'iutm'):
